@@ -483,8 +483,7 @@ func (e *kvElection) attemptPriorityTakeover(payloadBytes []byte) error {
 	}
 
 	if e.cfg.Priority <= currentPayload.Priority {
-		e.leaderID.Store(currentPayload.ID)
-		e.revision.Store(entry.Revision())
+		e.recordObservedLeader(currentPayload.ID, entry.Revision())
 		return fmt.Errorf("current leader has equal or higher priority: %d >= %d", currentPayload.Priority, e.cfg.Priority)
 	}
 
@@ -522,6 +521,23 @@ func (e *kvElection) attemptPriorityTakeover(payloadBytes []byte) error {
 // becomeFollower switches the instance to follower. It reports whether the
 // instance was leader before the call, so that exactly one of several
 // concurrent detectors of the same loss runs the demotion callback.
+// recordObservedLeader stores what a follower has learned about the current record
+// (watch event, periodic check, failed takeover). While this instance leads, leaderID
+// and revision describe its own record - the revision is what the next heartbeat
+// refreshes against - so an observation that was made just before it became leader
+// must not overwrite them. becomeLeader sets the flag and both fields under the same
+// mutex, which makes the test below race-free.
+func (e *kvElection) recordObservedLeader(id string, rev uint64) {
+	e.mu.Lock()
+	defer e.mu.Unlock()
+
+	if e.isLeader.Load() {
+		return
+	}
+	e.leaderID.Store(id)
+	e.revision.Store(rev)
+}
+
 func (e *kvElection) becomeFollower() bool {
 	e.mu.Lock()
 	defer e.mu.Unlock()
